@@ -23,6 +23,7 @@ type SegCase struct {
 	Seg  [2][2]float64 `json:"seg"`
 	Q    int64         `json:"q"`
 	Cls  string        `json:"cls,omitempty"`
+	NWin int           `json:"nwin,omitempty"` // how many of Hot lie in the window (the rest is anywhere in the grid)
 }
 
 var specC02Seg = report.Spec{Property: "C02", Check: "C02Seg",
@@ -52,6 +53,7 @@ func genC02Seg(t *rapid.T) SegCase {
 	c.Cls = cls
 	c.Q = rapid.SampledFrom([]int64{4, 4, 4, 3, 8}).Draw(t, "q")
 	nh := rapid.IntRange(1, 10).Draw(t, "nHot")
+	c.NWin = nh
 	for k := 0; k < nh; k++ {
 		c.Hot = append(c.Hot, [2]int64{an.X + rapid.Int64Range(0, w-1).Draw(t, "hi"), an.Y + rapid.Int64Range(0, w-1).Draw(t, "hj")})
 	}
@@ -201,7 +203,7 @@ func genC02Hist(t *rapid.T) HistCase {
 	deepest := g.LevelOf(seg.deepID())
 	// the window of the first round is reused: draw further rounds from the same pixels
 	minX, minY, maxX, maxY := seg.Hot[0][0], seg.Hot[0][1], seg.Hot[0][0], seg.Hot[0][1]
-	nIn := min(len(seg.Hot), 10)
+	nIn := min(len(seg.Hot), max(seg.NWin, 1))
 	for _, h := range seg.Hot[:nIn] {
 		minX, minY, maxX, maxY = min(minX, h[0]), min(minY, h[1]), max(maxX, h[0]), max(maxY, h[1])
 	}
